@@ -844,5 +844,8 @@ def run(ctx) -> None:
     ctx.guard(r02_7)
     ctx.guard(r02_8)
     ctx.guard(r02_9)
+    # "a wrong sender / recipient key yields an error": the agreed secret is computed from the keys of this recipient only (C08's Z rules)
+    from .c08 import r08_4
+    ctx.guard_as("R02.10", r08_4)
     ctx.assume("AEAD soundness and point validation inside pyca/cryptography and pycryptodome")
     ctx.assume("GCM tags of a length other than 16 octets are refused by pyca (ValueError), probed in DESIGN B7")
